@@ -121,6 +121,9 @@ class EditHooks(Hooks):
             it.probe('query_repeated_after_edit')
             if tag.get('foreign_unit'):
                 it.probe('foreign_unit_query_repeated_after_edit')
+        if tag.get('one_option_flipped'):
+            it.probe('bin_one_option_flipped')
+            it.fault('dup')
         if fn in ('Spectrum.bin', 'Spectrum.sample') and out.ok and isinstance(out.value, np.ndarray):
             tgt_d = it.dig(it.resolve(ev['a'][0]))
             again = tag.get('again')
@@ -168,9 +171,19 @@ class EditHooks(Hooks):
         post = MS.of(tgt)
         a = [it.resolve(x) for x in ev.get('a', [])[1:]]
         k = {kk: it.resolve(x) for kk, x in ev.get('k', {}).items()}
+        if fn == 'Spectrum.crop' and len(pre.crop(a[0], a[1]).wave) == 0:
+            # nothing lies inside the closed range.  The statement does not say whether such a call succeeds; it does say what may be
+            # retained: an accepted call keeps exactly the samples inside the range (none), a refused one may leave the object as it was
+            it.probe('crop:disjoint')
+            it.probe('check:retain')
+            if out.ok and len(post.wave) > 0:
+                it.violate('C15.retain', {'call': fn, 'what': 'closed-range', 'cut': 'disjoint'},
+                           'crop(%r, %r) of %s was accepted and kept %s although no sample lies inside the closed range' % (a[0], a[1], pre.wave, post.wave), i)
+            elif not out.ok and len(post.wave) > 0 and not post.same(pre, rtol=0):
+                it.violate('C15.retain', {'call': fn, 'what': 'refused-edit-changed-object'},
+                           'refused crop(%r, %r) left %s (was %s)' % (a[0], a[1], post.wave, pre.wave), i)
+            return
         if fn in EDITS and not out.ok:
-            if fn == 'Spectrum.crop' and len(pre.crop(a[0], a[1]).wave) == 0:
-                return      # empty-result crops are outside the statement
             # an edit whose arguments are valid for the live pre-state must be carried out
             valid = None
             if not pre.wave:
@@ -406,7 +419,7 @@ class SpectrumEditScenario(Scenario):
     must_hit = ['refused:resample', 'refused:append', 'crop:at-sample', 'crop:between', 'pad:inside', 'pad:outside',
                 'bin:trapz/symmetric/pp', 'bin:trapz/inside/raw', 'bin:simps/symmetric/raw', 'bin:simps/inside/pp',
                 'bin_linear_exact', 'bin_power', 'nonuniform_grid', 'idem', 'query_repeated_after_edit', 'shared_buffers',
-                'query_repeated_after_caller_write', 'foreign_unit_query_repeated_after_edit']
+                'query_repeated_after_caller_write', 'foreign_unit_query_repeated_after_edit', 'bin_one_option_flipped', 'crop:disjoint']
     probe_names = must_hit + ['coldwarm_audit', 'refused:to', 'refused:pad', 'refused:trim', 'refused:crop']
 
     def make_fns(self):
@@ -496,6 +509,16 @@ class SpectrumEditScenario(Scenario):
                     how = 'at-sample'
             else:
                 lo, hi = w[0] - abs(w[1] - w[0]), (w[j] if rng.random() < 0.5 else w[-1] + 1.0)
+            if rng.random() < 0.04:
+                # a window that misses the grid altogether (requesting a second, disjoint band from what an earlier crop left): nothing
+                # inside the closed range.  The last thing done to this spectrum (its model goes empty, so it is left alone afterwards)
+                span = w[-1] - w[0]
+                lo, hi = (w[-1] + 0.25 * span, w[-1] + 0.75 * span) if rng.random() < 0.5 else (max(w[0] * 0.25, w[0] - 0.75 * span), max(w[0] * 0.5, w[0] - 0.25 * span))
+                if hi < w[0] or lo > w[-1]:
+                    how = 'disjoint'
+                else:
+                    lo, hi = w[i], w[j]
+                    how = 'at-sample'
             e = E('Spectrum.crop', [ref, lo, hi], t={'cut': how}, inplace=[ref])
             new = m.crop(lo, hi)
             m.wave, m.value = new.wave, new.value
@@ -730,6 +753,13 @@ class SpectrumEditScenario(Scenario):
             m = models[sid]
             if len(m.wave) < 3:
                 continue
+            if rng.random() < 0.08:
+                # the owner edits samples in place through the array the spectrum hands out (s.value[...] *= k): the next edit or query
+                # sees the new content (expected results are computed from the object's live public pre-state)
+                aid = 'c0_va%d' % len(events)
+                events.append({'c': 0, 'fn': 'attr', 'a': ['@' + sid, 'value'], 'id': aid})
+                events.append({'env': 'perturb', 'c': 0, 'target': '@' + aid, 'seed': rng.randrange(10 ** 6), 'scale': rng.choice([None, 5.0])})
+                m.lin = None
             if rng.random() < 0.5:
                 e = self.edit(rng, 0, sid, m, events, models, counter)
                 # F6 across an edit: the reader repeats an earlier question, word for word, about the edited object
@@ -751,6 +781,17 @@ class SpectrumEditScenario(Scenario):
                 self.query(rng, K - 1, sid, m, events, counter)
                 asked[sid] += [e for e in events[n0:] if e['fn'] in ('Spectrum.integrate', 'Spectrum.bin', 'Spectrum.sample')]
                 last = events[-1]
+                if last['fn'] == 'Spectrum.bin' and len(events) > n0 and rng.random() < 0.3:
+                    # the same centres again with exactly one option changed (state left by the first call must not carry over)
+                    d = copy.deepcopy(last)
+                    counter[0] += 1
+                    d['id'] = 'c%d_q%d' % (d['c'], counter[0])
+                    opt = rng.choice(['ends', 'interp_method', 'preserve_power'])
+                    d['k'][opt] = {'ends': {'symmetric': 'inside', 'inside': 'symmetric'}, 'interp_method': {'trapz': 'simps', 'simps': 'trapz'},
+                                   'preserve_power': {True: False, False: True}}[opt][d['k'][opt]]
+                    d.setdefault('t', {})['one_option_flipped'] = opt
+                    events.append(d)
+                    last = d
                 if last['fn'] in ('Spectrum.bin', 'Spectrum.sample') and len(events) > n0 and rng.random() < 0.3:
                     # fault: the caller writes into the array it was handed, then asks again
                     events.append({'env': 'perturb', 'c': last['c'], 'target': '@' + last['id'], 'seed': rng.randrange(10 ** 6)})
